@@ -54,13 +54,15 @@ int main(int argc, char** argv) {
   Lsm L;
   add_simple_ops(L.ops);
   const size_t nsimple = L.ops.size();
-  add_module_ops(L.ops, {4, 16, 8192});
+  add_module_ops(L.ops, {4, 16, 256, 8192});  // 256: a dimension between the small and the large layer (a threshold-keyed scratch would sit there)
   const size_t nmod_end = L.ops.size();
   add_table_ops(L.ops);
   const size_t ntab_end = L.ops.size();
   add_ctor_ops(L.ops);
+  const size_t nctor_end = L.ops.size();
+  add_kernel_ops(L.ops);
   const size_t nmain = L.ops.size();
-  add_module_ops(L.ops, {4, 16, 8192}, 1);  // the same entry points on different data (second thread of same-call pairs)
+  add_module_ops(L.ops, {4, 16, 256, 8192}, 1);  // the same entry points on different data (second thread of same-call pairs)
   std::map<int, int> twin;
   for (size_t k = nsimple; k < nmod_end; ++k) for (size_t j = nmain; j < L.ops.size(); ++j) if (L.ops[j].name == L.ops[k].name + "#data1") twin[(int)k] = (int)j;
   lsm_seal_root();
@@ -124,7 +126,11 @@ int main(int argc, char** argv) {
     for (size_t a = nmod_end; a < ntab_end; ++a) { if (!small_dim(a) || (a + 1 < nmain && !small_dim(a + 1))) continue; scen.push_back({"S3 table pair", {(int)a, (int)a}}); if (a + 1 < L.ops.size()) scen.push_back({"S3 table pair", {(int)a, (int)a + 1}}); }
   }
   // S4: two threads creating, using and deleting their own objects at the same time
-  for (size_t a = ntab_end; a < nmain; ++a) for (size_t b = a; b < nmain; ++b) if (L.ops[a].name.find("2048") == std::string::npos && L.ops[b].name.find("2048") == std::string::npos && L.ops[a].name.find("4096") == std::string::npos && L.ops[b].name.find("4096") == std::string::npos) scen.push_back({"S4 constructor pair", {(int)a, (int)b}});
+  for (size_t a = ntab_end; a < nctor_end; ++a) for (size_t b = a; b < nctor_end; ++b) if (L.ops[a].name.find("2048") == std::string::npos && L.ops[b].name.find("2048") == std::string::npos && L.ops[a].name.find("4096") == std::string::npos && L.ops[b].name.find("4096") == std::string::npos) scen.push_back({"S4 constructor pair", {(int)a, (int)b}});
+  // S5: the same exported kernel in two threads (small and medium size layers; the large ones are Engine B's job)
+  for (size_t a = nctor_end; a < nmain; ++a) if (L.ops[a].name.find("layer=4096") == std::string::npos && L.ops[a].name.find("layer=8192") == std::string::npos
+      && L.ops[a].name.find("|generic|") == std::string::npos && L.ops[a].name.find("|native|") == std::string::npos)  // cases that switch the harness-global CPU mask are not thread-safe in the harness itself (the transforms are in S3)
+      scen.push_back({"S5 kernel pair", {(int)a, (int)a}});
   const int bound = th ? 3 : 2;
   ctx.parallel(scen.size(), [&](uint64_t si) {
     const Scenario& sc = scen[si];
